@@ -128,7 +128,7 @@ def gen_workload(tape, *, max_funcs=5, max_size=3, allow_gen=True, allow_tuple=T
         if tape.coin(0.1, "scribbles"):
             fd["scribbles"] = True  # the function overwrites, in place, the arrays pipefunc computed and handed to it
         if n_out == 1 and kind != "gen" and tape.coin(0.1, "sequence-valued"):
-            fd["seq_out"] = True  # each element / the single result is a 2-tuple
+            fd["seq_out"] = "list" if tape.coin(0.6, "list-valued") else True  # each element / the single result is a 2-tuple or a list
         elif n_out == 1 and kind != "gen" and tape.coin(0.1, "result-like"):
             fd["result_like"] = True  # the value has a .result() method of its own
         elif n_out == 1 and kind != "gen" and tape.coin(0.08, "data-like"):
@@ -374,7 +374,7 @@ def build_pipeline(w, *, cached=(), tags=None, **pipeline_kwargs):
         fn = Fn(fd["name"], [inner.get(p_, p_) for p_ in fd["params"]], defaults=fd.get("sig_defaults") or None,
                 n_out=len(fd["outputs"]), out_shape=fd.get("out_shape"),
                 tag=(tags or {}).get(fd["name"], ""), none_mod=0 if fd.get("out_shape") else fd.get("none_mod", 0),
-                seq_out=bool(fd.get("seq_out")) and not fd.get("out_shape"),
+                seq_out=fd.get("seq_out") if not fd.get("out_shape") else False,
                 outer={v: k for k, v in inner.items()}, dict_out=fd["outputs"] if fd.get("dict_out") else None,
                 result_like=bool(fd.get("result_like")) and not fd.get("out_shape") and not fd.get("none_mod"),
                 public_name=fd.get("public_name"),
